@@ -96,13 +96,17 @@ Flip1(S, a) == CASE a = "x" -> [k \in 1..NT(S) |-> FlipImgX(S[k])]
                  [] a = "z" -> [k \in 1..NT(S) |-> S[NT(S) + 1 - k]]
 FlipS(S, axes) == IF Len(axes) = 1 THEN Flip1(S, axes[1]) ELSE Flip1(Flip1(S, axes[1]), axes[2])
 
-\* central window of w2 x h2 pixels (0 = keep); only sizes with the parity of the image size are offered, so that
-\* the central window is unique: it starts (w - w2) / 2 columns and (h - h2) / 2 rows in
-CropOK(S, w2, h2) == /\ w2 = 0 \/ (w2 >= 1 /\ w2 <= WD(S) /\ (WD(S) - w2) % 2 = 0)
-                     /\ h2 = 0 \/ (h2 >= 1 /\ h2 <= HT(S) /\ (HT(S) - h2) % 2 = 0)
+\* central window of w2 x h2 pixels (0 = keep that size).  The centre convention of the package is floor(N / 2): the
+\* centre of an axis of length N is the 0-based index N \div 2 (so for the map boxes and the masks), and the central
+\* window of length n is the one whose own centre index n \div 2 lies on it: it starts at N \div 2 - n \div 2.  For
+\* sizes of equal parity that is (N - n) / 2 on both sides; for an even length cropped to an odd one the window has
+\* one pixel more cut off in front than behind, for an odd length cropped to an even one one pixel less.
+CropOK(S, w2, h2) == /\ w2 = 0 \/ (w2 >= 1 /\ w2 <= WD(S))
+                     /\ h2 = 0 \/ (h2 >= 1 /\ h2 <= HT(S))
+CropStart(len, new) == len \div 2 - new \div 2
 CropImg(I, w2, h2) == LET ww == IF w2 = 0 THEN I.w ELSE w2
                           hh == IF h2 = 0 THEN I.h ELSE h2
-                          F(r, c) == I.px[(I.h - hh) \div 2 + r][(I.w - ww) \div 2 + c]
+                          F(r, c) == I.px[CropStart(I.h, hh) + r][CropStart(I.w, ww) + c]
                       IN  MkImg(hh, ww, F)
 CropS(S, w2, h2) == [k \in 1..NT(S) |-> CropImg(S[k], w2, h2)]
 
@@ -232,15 +236,18 @@ C15_FlipAxis ==
                                         [] op'.axes[1] = "y" -> stack[k].px[r][WD(stack) + 1 - c]
                                         [] OTHER -> stack[NT(stack) + 1 - k].px[r][c]]_vars
 
+\* the window centre (0-based index n \div 2 of the window) sits on the image centre (0-based index N \div 2), on both
+\* axes, whatever the parities; the window holds the pixels of that place
 C15_CropCentral ==
     [][Is("crop") =>
           LET ww == IF op'.w = 0 THEN WD(stack) ELSE op'.w
               hh == IF op'.h = 0 THEN HT(stack) ELSE op'.h
           IN  /\ NT(stack') = NT(stack) /\ WD(stack') = ww /\ HT(stack') = hh
-              /\ 2 * ((WD(stack) - ww) \div 2) = WD(stack) - ww           \* as many columns cut left as right
-              /\ 2 * ((HT(stack) - hh) \div 2) = HT(stack) - hh           \* as many rows cut above as below
-              /\ \A k \in 1..NT(stack) : \A r \in 1..hh : \A c \in 1..ww :
-                     stack'[k].px[r][c] = stack[k].px[r + (HT(stack) - hh) \div 2][c + (WD(stack) - ww) \div 2]]_vars
+              /\ \E c0 \in 0..(WD(stack) - ww), r0 \in 0..(HT(stack) - hh) :
+                     /\ c0 + ww \div 2 = WD(stack) \div 2
+                     /\ r0 + hh \div 2 = HT(stack) \div 2
+                     /\ \A k \in 1..NT(stack) : \A r \in 1..hh : \A c \in 1..ww :
+                            stack'[k].px[r][c] = stack[k].px[r0 + r][c0 + c]]_vars
 
 C15_BinBlockMeans ==
     [][Is("bin") =>
